@@ -10,6 +10,7 @@ def run(res):
     K = lc.consts(MaxFrames=4 if th else 3, Sites={'p1', 'upd', 'co', 'p2'} if th else {'p1', 'p2'},
                   Reqs={'nop', 'switch', 'raise', 'quit', 'quit_loop', 'clrquit', 'error', 'qlerr', 'direct'}, Hs={'A', 'B'})
     lc.check_and_replay(res, 'c14_time', K, lc.INV, lc.PROPS_C14, own=OWN, walks=3000 if th else 1000, walk_len=10)
+    lc.simulate_and_replay(res, 'c14_simulated', 1500 if th else 250, 30, own=OWN)
     K2 = dict(lc.consts(), StartResetsInFinally=False)
     res.model_check_py('Loop', 'c14_asimpl_start', K2, invariants=lc.INV, properties=lc.PROPS_C14,
                        expect_violation=('StartAlwaysFresh', 'FirstDtZero'), count=False)
